@@ -83,17 +83,20 @@ K = {
     "C08": {
         "prefix": r"c08_", "jobs": 8, "quick_timeout": 900,
         "functions": ["vm::VmGreenThread::step (SpawnTask)", "vm::Value::deep_copy (all value kinds)", "ChannelObject::copy"],
-        "bounds": "one real SpawnTask step with one capture of each kind: scalar (symbolic), string <= 2 symbolic bytes, array of 0/2 symbolic "
-                  "ints, array of strings, struct{int, array}, variant(symbolic tag){closure[code, int]}, channel; nesting <= 2. The scheduler "
-                  "queue (mpsc) is a ghost slot. Outside: deeper nesting, cyclic structures (not constructible in Abra).",
+        "bounds": "one real SpawnTask step with one capture of each kind: int / float / bool (symbolic payload), string <= 2 symbolic bytes, array of 0/2 symbolic "
+                  "ints, array of strings, struct{int, array}, variant(symbolic tag){closure[code, int]}, channel; nesting <= 2; recursion of "
+                  "deep_copy and all loops unwound 4 times with unwinding assertions (a deeper structure would fail the assertion, not pass silently). "
+                  "The scheduler queue (mpsc) is a ghost slot. Outside: deeper nesting, cyclic structures (not constructible in Abra).",
         "assumptions": [],
     },
     "C09": {
         "prefix": r"c09_", "jobs": 8, "quick_timeout": 900,
         "functions": ["vm::VmGreenThread::step (ChannelWrite, ChannelRead)", "ChannelObject::{read_value, write_value, copy}", "Value::deep_copy"],
-        "bounds": "one-step harnesses on two real threads sharing one queue of <= 2 symbolic values: write appends, read takes the front and "
-                  "copies into the reader's heap, empty read rewinds pc only; plus the history write / writer dropped / read. Order and "
-                  "exactly-once then follow from VecDeque (std, trusted). Outside: OS threads, queues longer than 2.",
+        "bounds": "one-step harnesses on two real threads sharing one queue of 0, 1 or 2 symbolic values (length concrete per harness): write "
+                  "appends at the back, read takes the front and copies it into the reader's heap, an empty read rewinds pc only; plus the "
+                  "ownership obligation 'what the queue holds after a write does not belong to the writer's heap' (a finished writer is "
+                  "dropped by the scheduler and its heap freed). Order and exactly-once follow by induction over these steps. Outside: OS "
+                  "threads, queues longer than 2.",
         "assumptions": ["std::collections::VecDeque and Mutex behave as documented (single-threaded under Kani)"],
     },
     "C10": {
@@ -132,11 +135,11 @@ K = {
     },
     "C36": {
         "prefix": r"c36_", "jobs": 8, "quick_timeout": 900,
-        "thorough_only": r"c36_(vec_option_bool|tuple_int_string_bool|result_unit_int|option_tuple)",
+        "thorough_only": r"c36_(vec_int_2|result_int_string)",
         "functions": ["host_bindings::VmType impls for AbraInt, f64, bool, String, (), Option<T>, Result<T,E>, Vec<T>, tuples", "the VM heap constructors they call"],
         "bounds": "round trip v.to_vm(); T::from_vm() == v with the stack depth restored, values symbolic: int, float (bitwise), bool, String <= 2 "
                   "bytes, (int,bool), (int,String,bool), Option<int>, Option<(int,bool)>, Result<int,String>, Result<(),int>, Vec<int> of length "
-                  "0 and 2, Vec<Option<bool>> of length 2; argument order for a 3-argument host function. Outside: generated code for user "
+                  "0 and 2 (Vec<Option<bool>> does not finish under CBMC at the 12 GB cap, measured: outside); argument order for a 3-argument host function. Outside: generated code for user "
                   "structs/enums (generate_host_function_enum needs the whole front end), the C ABI flavour.",
         "assumptions": [],
     },
